@@ -115,6 +115,9 @@ func (s *Sess) CreatePDR(req *ie.IE) error {
 			if err1 != nil {
 				break
 			}
+			if _, dup := urrids[v]; dup {
+				break
+			}
 			urrids[v] = struct{}{}
 			urrInfo, ok := s.URRIDs[v]
 			if ok {
